@@ -142,16 +142,57 @@ TODO_DEFECT_PCT_ATTRS = False
 TODO_DEFECT_PCT_TUPLE = False
 
 
+# (outside the property, which names percentile only; seen while mirroring lib.stats.quantile)
+# quantile(a, q, axis=(d1, d2)) raises TypeError ("axis must be int or str": a._get_axis_info is asked before percentile
+# flattens the tuple) although percentile accepts the tuple since F55; quantile(a, [0, 1]) - every level a Python int -
+# raises UFuncTypeError (the integer percentile labels are divided in place by 100.).  Neither form is generated.
+QUANTILE_TUPLE_AXIS_FAILS = True
+QUANTILE_INT_LEVELS_FAIL = True
+
+
+def rat(x):
+    """a percentile / quantile level as an exact rational [numerator, denominator]"""
+    fr = Fraction(x.item() if isinstance(x, np.generic) else x)
+    return [fr.numerator, fr.denominator]
+
+
+def pct_kind(levels):
+    """dtype kind of Axis(levels, ...): integer when every level is a Python int"""
+    return "i" if all(isinstance(q, (int, np.integer)) and not isinstance(q, bool) for q in levels) else "f"
+
+
+class PctEnv(core.CellEnv):
+    """evaluator of the symbolic cells of Lib.percentile: `redp q fibre` is NumPy's q-th percentile of the 1-D fibre
+    (Lean: the abstract `redq q cells`); everything else as in core.CellEnv"""
+    def __init__(self, inputs):
+        core.CellEnv.__init__(self, inputs)
+        self.dtype = self.inputs[0].dtype
+
+    def ev(self, c):
+        if c[0] == "redp":
+            fib = np.array([self.ev(x) for x in c[3]])
+            if self.dtype.kind == "f":
+                fib = fib.astype(self.dtype)       # (a NaN cell is a Python float: keep the array's own precision)
+            with np.errstate(all="ignore"), warnings.catch_warnings():
+                warnings.simplefilter("ignore")
+                return np.percentile(fib, float(Fraction(c[1], c[2])))
+        return core.CellEnv.ev(self, c)
+
+
 class C08(Prop):
     id = "C08"
     theorems = ["reduce_axes_spec", "fibre_get", "fibre_length", "dealWithAxis_name_pos", "reduce_none_scalar",
-                "reduce_tuple_eq_flatten", "getFunc_table_policy", "getFunc_table_covers", "reduce_none_row_major", "reduce_rank1_scalar", "dealWithAxis_pos_spec", "reduce_name_spec", "reduce_commute_transpose", "reduce_tuple_cells"]
+                "reduce_tuple_eq_flatten", "getFunc_table_policy", "getFunc_table_covers", "reduce_none_row_major", "reduce_rank1_scalar", "dealWithAxis_pos_spec", "reduce_name_spec", "reduce_commute_transpose", "reduce_tuple_cells",
+                "percentile_spec", "percentile_scalar_spec", "percentile_tuple_spec", "percentile_rank1_spec", "percentile_none_scalar",
+                "percentile_refuses", "quantile_spec"]
     rule = ("float/int/bool arrays of rank 1-4, sizes 1-4, NaN patterns none / some / whole fibre / all, metadata on the "
             "array and on (some of) its axes; every reduction (sum prod mean var std min max ptp all any median) x axis by "
             "name / position / negative position / tuple or list of names, positions, negative positions or a mix, in any "
             "order, of one, some or all the dimensions / None x skipna; axis and skipna written as keywords, positionally "
             "(a.sum(0), a.sum(0, True)) or left to their defaults; percentile with scalar / list / tuple / ndarray pct, axis "
-            "by name / position / default / None, with and without newaxis=. The (function, skipna) -> NumPy "
+            "by name / position / default / None / tuple, with and without newaxis= (compared cell by cell with the mirror "
+            "Lib.percentile: symbolic cells `redp q fibre`), plus a stratum of float percentile lists and of "
+            "lib.stats.quantile with dyadic levels. The (function, skipna) -> NumPy "
             "family table of _get_func is tabulated from the implementation on every run. Non-trivial = rank >= 2 or "
             "NaNs present; distinct = canonical JSON")
     assumptions = ["what a NumPy reduction computes on a 1-D fibre is NumPy's; sum/prod/mean/var/std/median compared after rounding to 12 significant digits"]
@@ -161,7 +202,8 @@ class C08(Prop):
         t = _s.modules["dimarray.core.transform"]
         st = _s.modules["dimarray.lib.stats"]
         return {"apply_along_axis": t.apply_along_axis, "_deal_with_axis": t._deal_with_axis, "_get_func": t._get_func,
-                "_median_with_nan": t._median_with_nan, "_MaskedArrayFunc": t._MaskedArrayFunc, "percentile": st.percentile}
+                "_median_with_nan": t._median_with_nan, "_MaskedArrayFunc": t._MaskedArrayFunc, "percentile": st.percentile,
+                "quantile": st.quantile}
 
     # ---- finite decision table
     def pre_build(self):
@@ -280,6 +322,41 @@ class C08(Prop):
                 arr.pop("vdtype", None)       # (a product of a dozen values overflows single precision)
             skipna = rng.random() < 0.5
             yield {"op": "reduce", "array": arr, "fn": fn, "axis": ax, "skipna": skipna, "spell": self.spelling(rng, ax, skipna)}
+        for c in self.gen_stats_extra(rng, tier):
+            yield c
+
+    def gen_stats_extra(self, rng, tier):
+        """further forms of lib.stats, generated after the main stream: percentile with float / mixed lists of levels,
+        and quantile (levels in [0, 1] that are dyadic, so that q*100 and the division back by 100 are exact)"""
+        for _ in range(80 if tier == "quick" else 2500):
+            rank = rng.choice([1, 2, 2, 3, 3, 4])
+            arr = gen.rand_array(rng, rank=rank, maxn=4, minn=1)
+            arr["vkind"] = rng.choice(["f", "f", "i"])
+            shape = [len(a["labels"]) for a in arr["axes"]]
+            arr["nan_at"] = nan_pattern(rng, shape, rng.choice(["none", "none", "some", "fibre"])) if arr["vkind"] == "f" else []
+            if rng.random() < 0.5:
+                arr["attrs_py"] = {"units": "K", "n": 2}
+            gen.dtype_variants(rng, arr)
+            if rng.random() < 0.5:
+                add_axis_attrs(rng, arr)
+            names = [a["name"] for a in arr["axes"]]
+            d = rng.randrange(rank)
+            ax = rng.choice([["name", names[d]], ["pos", d], ["pos", d - rank]])
+            if rng.random() < 0.5:
+                pct = rng.choice([[12.5, 50.0], [2.5], [100.0, 0.0], [50, 12.5], [37.5, 37.5, 5.0]])
+                if rank >= 2 and rng.random() < 0.3:
+                    ax = ["many", spell_elems(rng, rng.sample(names, rng.randint(1, rank)), names)]
+                c = {"op": "percentile", "array": arr, "pct": pct, "pct_as": rng.choice(["list", "tuple", "ndarray"]),
+                     "axis": ax, "axis_given": True}
+            else:
+                q = rng.choice([[0.5], [0.25, 0.75], [0.0, 1.0], [0.125, 0.5, 0.875], [0.75, 0.25], [1.0], [0.5, 0.5]])
+                c = {"op": "quantile", "array": arr, "q": q, "q_as": rng.choice(["list", "tuple", "ndarray"]),
+                     "axis": ax, "axis_given": rng.random() < 0.8}
+                if not c["axis_given"]:
+                    c["axis"] = ["pos", 0]
+            if rng.random() < 0.4:
+                c["newaxis"] = rng.choice(["q", "level", "quantile level"])
+            yield c
 
     def gen_percentile(self, rng, arr, ax, names):
         """percentile(a, pct[, axis][, newaxis]): axis by name / position / left to its default (the first dimension) /
@@ -328,6 +405,15 @@ class C08(Prop):
                         if "newaxis" in c:
                             kw["newaxis"] = c["newaxis"]
                         r = percentile(a, pct, **kw)
+                    elif c["op"] == "quantile":
+                        from dimarray.lib.stats import quantile
+                        q = {"list": list, "tuple": tuple, "ndarray": np.array}[c.get("q_as", "list")](c["q"])
+                        kw = {}
+                        if c.get("axis_given", True):
+                            kw["axis"] = axis_py(c["axis"])
+                        if "newaxis" in c:
+                            kw["newaxis"] = c["newaxis"]
+                        r = quantile(a, q, **kw)
                     else:
                         sp = c.get("spell") or {"axis": "kw", "skipna": "kw"}
                         args, kw = [], {}
@@ -353,6 +439,17 @@ class C08(Prop):
     def request(self, c):
         toks = core.AttrTokens()
         arr = core.lean_array(gen.clean(c["array"]), toks)
+        if c["op"] in ("percentile", "quantile"):
+            # the mirrors Lib.percentile / Lib.quantile (axis left out: the default, position 0)
+            ax = c["axis"] if c.get("axis_given", True) else ["pos", 0]
+            req = {"op": "transform", "fn": c["op"], "arrays": [arr], "axis": lean_axis_arg(ax), "newaxis": c.get("newaxis")}
+            if c["op"] == "quantile":
+                req.update({"q": [rat(q) for q in c["q"]], "qkind": pct_kind(c["q"])})
+            elif np.isscalar(c["pct"]):
+                req["pct"] = {"form": "scalar", "q": rat(c["pct"])}
+            else:
+                req["pct"] = {"form": "many", "qs": [rat(q) for q in c["pct"]], "kind": pct_kind(c["pct"])}
+            return req
         return {"op": "transform", "fn": "reduce", "arrays": [arr], "axis": lean_axis_arg(c["axis"])}
 
     def expected_numpy(self, c, a):
@@ -366,19 +463,56 @@ class C08(Prop):
         bad, prop_bad = [], []
         a = core.build_array(c["array"], 0)
         PREC[0] = 5 if a.values.dtype == np.float32 else 11
-        if c["op"] == "percentile":
-            # values straight from NumPy, axes from the statement; of the mirror only "such a reduction succeeds"
+        if c["op"] in ("percentile", "quantile"):
+            isq = c["op"] == "quantile"
+            levels = c["q"] if isq else c["pct"]              # the labels of the new dimension
+            pcts = [q * 100 for q in levels] if isq else levels      # what NumPy is asked for
+            # ---- the mirror (Lib.percentile / Lib.quantile): outcome, dims, axes (labels, metadata, the new dimension's
+            # name, labels and label kind), array metadata, and every cell = NumPy's percentile of the fibre the model names
+            if "ok" in lean:
+                env = PctEnv([a.values])
+                lo = lean["ok"]
+                if "scalar" in lo:
+                    lvals, ldims, laxes, lshape = [rnd(env.ev(lo["scalar"]), "mean")], [], [], []
+                else:
+                    lvals, ldims, laxes, lshape = [rnd(env.ev(x), "mean") for x in lo["cells"]], lo["dims"], lo["axes"], lo["shape"]
+                if "err" in io:
+                    bad.append("outcome")
+                else:
+                    got = io["ok"]
+                    if got["scalar"] != ("scalar" in lo):
+                        bad.append("scalar")
+                    if got["dims"] != ldims:
+                        bad.append("dims")
+                    if got["shape"] != lshape:
+                        bad.append("shape")
+                    if [(x["name"], [Fraction(l[1], l[2]) if l[0] == "n" else l for l in x["labels"]]) for x in got["axes"]] != \
+                            [(x["name"], [Fraction(l[1], l[2]) if l[0] == "n" else l for l in x["labels"]]) for x in laxes]:
+                        bad.append("axes")
+                    elif [x["attrs"] for x in got["axes"]] != [x.get("attrs", []) for x in laxes]:
+                        bad.append("axes.attrs")
+                    elif not np.isscalar(levels) and got["axes"] and got["axes"][0]["kind"] != laxes[0]["kind"]:
+                        bad.append("M.axes.kind")
+                    if differ([rnd(v, "mean") for v in (got["raw"] or [])], lvals):
+                        bad.append("values")
+                    if not got["scalar"] and "scalar" not in lo and got["attrs"] != lo["attrs"]:
+                        bad.append("attrs")
+            elif "ok" in io:
+                bad.append("outcome")
+            elif io["err"] != lean["err"]:
+                bad.append("M.errclass")
+            # ---- the statement: values straight from NumPy, axes from the statement
             if "ok" in io:
                 names = list(a.dims)
                 red = resolve_dims(c["axis"], names)
                 npax = None if red is None else (names.index(red[0]) if len(red) == 1 else tuple(names.index(d) for d in red))
                 with np.errstate(all="ignore"), warnings.catch_warnings():
                     warnings.simplefilter("ignore")
-                    want = np.percentile(a.values, c["pct"], axis=npax)
+                    want = np.percentile(a.values, pcts, axis=npax)
                 keep = [d for d in names if d not in (red or names)]
                 got = io["ok"]
-                many = not np.isscalar(c["pct"])
-                newname = c.get("newaxis") or ((",".join(red) if red else "") + "_percentile")
+                many = not np.isscalar(levels)
+                newname = c.get("newaxis") or ((",".join(red) if red else "") + ("_quantile" if isq else "_percentile"))
                 wd = ([newname] if many else []) + keep
                 if many and red and len(red) > 1 and "newaxis" not in c and len(got["dims"]) == len(wd):
                     wd[0] = got["dims"][0]       # (how the percentile dimension of several dimensions is named is not stated)
@@ -399,7 +533,7 @@ class C08(Prop):
                             prop_bad.append("axes.attrs")
                     if many:
                         # NumPy returns the percentiles in the order requested: slice k is labelled pct[k]
-                        want_l = [float(q) for q in c["pct"]]
+                        want_l = [float(q) for q in levels]
                         got_l = [float(Fraction(l[1], l[2])) if l[0] == "n" else None for l in got["axes"][0]["labels"]]
                         if got_l != want_l:
                             prop_bad.append("axes.labels:percentile")
@@ -409,9 +543,9 @@ class C08(Prop):
                 prop_bad.append("outcome:" + io["err"])
             if io.get("operand_modified"):
                 prop_bad.append("operand_modified")
-            if not prop_bad:
+            if not bad and not prop_bad:
                 return None
-            return {"kind": "P", "differs": sorted(set(prop_bad)), "msg": io.get("msg")}
+            return {"kind": "P" if prop_bad else "M", "differs": sorted(set(bad + prop_bad)), "msg": io.get("msg")}
         f = expected_red(c["fn"], c["skipna"])
         if "ok" in lean:
             env = core.CellEnv([a.values], red=f)
@@ -518,7 +652,10 @@ class C08(Prop):
             sp = c.get("spell") or {"axis": "kw", "skipna": "kw"}
             f["spell"] = "axis:%s skipna:%s" % (sp["axis"], sp["skipna"])
         else:
-            f["pct"] = ("scalar" if np.isscalar(c["pct"]) else c.get("pct_as", "list"))
+            lv = c["q"] if c["op"] == "quantile" else c["pct"]
+            f["pct"] = ("scalar" if np.isscalar(lv) else c.get("pct_as", c.get("q_as", "list")))
+            f["pct_kind"] = pct_kind([lv] if np.isscalar(lv) else lv)
+            f["lean_compared"] = True
             f["pct_axis"] = "default" if not c.get("axis_given", True) else f["axis"]
             f["newaxis"] = "newaxis" in c
             f["array_attrs"] = bool(c["array"].get("attrs_py"))
